@@ -6,6 +6,7 @@ way the library drives it (limits from `data=`), plus direct calls, presets and 
 from __future__ import annotations
 
 import itertools
+import sys
 
 import numpy as np
 
@@ -15,7 +16,11 @@ ANCHOR_FILES = ["quantem/core/visualization/custom_normalizations.py", "quantem/
 RULE = (
     "seeded matrix over dtype x interval x stretch x value-family x entry mode (data= / direct call / preset via "
     "_resolve_normalization) plus stretch-inverse cases; non-trivial = >=3 distinct finite values and (NaN/inf present or "
-    "non-linear stretch) or a stretch-inverse case with a non-default parameter; distinct = (kind, dtype, interval, stretch, mode, family)"
+    "non-linear stretch) or a stretch-inverse case with a non-default parameter; distinct = (kind, dtype, interval, stretch, mode, family); "
+    "object-lifetime cases: inside one case a sequence of freshly allocated temporaries (x - 0, copy, astype, abs, stack views, re-bound loop variable, "
+    "np.array(list)) of one shape / dtype with different contents, each dropped before the next exists, and one buffer refilled in place, through eager "
+    "(data=) / lazy / shared lazy normalisation objects, the bare interval classes and _show_2d_array; non-trivial = an id() of an earlier array of the "
+    "sequence was handed out again (counted as lifetime_id_reused)"
 )
 ASSUMPTIONS = [
     "float32 inputs are judged with a 2e-4 range tolerance (arithmetic runs in the input precision); float64/integer inputs with 1e-9",
@@ -25,10 +30,14 @@ ASSUMPTIONS = [
     "a quantile interval's limits are judged by rank only: each must lie between the order statistics around rank q*(n-1) of the finite data (+-1 rank), so any interpolation rule passes",
     "pedestal cases (contrast 1e-2.5..1e-6 of the offset in float32, 1e-8.5..1e-12 in float64) use limits that are exact data values; limits / extreme pixels are judged at 16 eps of the data's precision, "
     "and the linear stretch against the float64 linear map at the same bound (measured <= 1 ulp)",
+    "object-lifetime cases: the harness keeps no reference to a temporary (only its id() as an integer); results are judged against a long-lived array with "
+    "bit-identical contents (same expression evaluated twice), by rank bracket (quantile), data extremes (min/max) and equality with what the long-lived twin gives; "
+    "the library is assumed deterministic for bit-identical inputs of identical layout",
     "large-array cases (2**20..2**24 pixels, values correlated with the pixel index modulo 2..16) judge range / order on every pixel, quantile limits by rank, min/max limits exactly, and invariance of the limits under shuffling the pixels",
 ]
 BUDGET = {"quick": {"soft_s": 300}, "thorough": {"soft_s": 1200}}
 MIN_EVALUATIONS = {"quick": 500, "thorough": 5000}
+REQUIRED_COUNTERS = ["lifetime_id_reused", "lifetime_inplace_refills"]  # the lifetime cases decide nothing unless an id() really was handed out again
 
 DTYPES = ["bool", "int8", "uint8", "int16", "uint16", "int32", "uint32", "int64", "uint64", "float16", "float32", "float64"]
 INTERVALS = ["manual_none", "manual_lo", "manual_hi", "manual_both", "manual_both_int", "quantile", "quantile_wide", "centered", "centered_hr"]
@@ -36,6 +45,9 @@ STRETCHES = ["linear", "power", "logarithmic", "asinh"]
 FAMILIES = ["uniform", "ties", "wide", "nan", "inf", "halfrange", "sparse", "tiny", "huge"]
 MODES = ["data", "direct", "preset"]
 PRESETS = ["linear_auto", "quantile", "linear_minmax", "minmax", "linear_centered", "log_auto", "log_minmax", "power_squared", "power_sqrt", "asinh_centered"]
+LT_INTERVALS = ["quantile", "quantile_wide", "manual_none", "centered"]
+LT_TARGETS = ["eager", "lazy", "lazy_shared", "interval"]
+LT_FORMS = ["arith", "copy", "astype", "abs", "view", "rebind", "inplace", "fromlist"]
 STRETCH_CLASSES = ["LinearStretch", "PowerLawStretch", "LogarithmicStretch", "InverseLogarithmicStretch", "InverseHyperbolicSineStretch", "HyperbolicSineStretch"]
 
 
@@ -71,6 +83,24 @@ def plan(tier, seed):
     for r in range(60 if tier == "quick" else 1500):
         specs.append({"kind": "viz", "entry": "array" if r % 2 == 0 else "combined", "dtype": DTYPES[1:][r % (len(DTYPES) - 1)], "stretch": STRETCHES[(r // 2) % 4],
                       "limits": ["both", "none", "preset", "quantiles"][(r // 3) % 4]})
+    # object lifetime / identity: short-lived arrays of one shape and dtype with different contents, one after the other in one case
+    nd = len(DTYPES) - 1
+    lt = []
+    r = 0
+    for rep in range(1 if tier == "quick" else 30):
+        for dt in DTYPES[1:]:
+            for iv in LT_INTERVALS:
+                for tg in LT_TARGETS:
+                    lt.append({"kind": "lifetime", "dtype": dt, "interval": iv, "target": tg, "form": LT_FORMS[(r + r // len(LT_FORMS) + rep) % len(LT_FORMS)],
+                                  "stretch": STRETCHES[(r // 3 + rep) % 4], "pace": "tight" if (r // 2 + rep) % 3 != 0 else "interleaved"})
+                    r += 1
+    for r in range(24 if tier == "quick" else 400):
+        lt.append({"kind": "lifetime", "dtype": DTYPES[1:][(r * 5) % nd], "interval": LT_INTERVALS[r % 2], "target": "viz", "form": ["arith", "astype", "abs", "view", "inplace", "rebind"][r % 6],
+                      "stretch": STRETCHES[(r // 2) % 4], "pace": "tight"})
+    # (the class sits at the end of the plan: a first block is exempt from the soft time budget so that it is never skipped as a whole)
+    for sp in [x for x in lt if x["target"] != "viz"][:176] + [x for x in lt if x["target"] == "viz"][:24]:
+        sp["_must_run"] = True
+    specs += lt
     return specs
 
 
@@ -675,10 +705,7 @@ def _run_pedestal(spec, idx, ctx):
     ctx.observe(ratio=R, contrast=c, kw=kw)
 
 
-def _run_viz(spec, idx, ctx):
-    """In situ: what the plotting entry points hand to the colour conversion must be the requested normalisation of the data."""
-    from matplotlib.figure import Figure
-
+def _viz_setup(ctx):
     from vf import hook
 
     viz = ctx.state.get("viz")
@@ -700,6 +727,14 @@ def _run_viz(spec, idx, ctx):
         # the names as bound inside visualization.py (from ... import ...)
         hook.wrap(viz, "array_to_rgba", pre=pre_array, ctx=ctx, also_patch_importers=False)
         hook.wrap(viz, "list_of_arrays_to_rgba", pre=pre_list, ctx=ctx, also_patch_importers=False)
+    return viz
+
+
+def _run_viz(spec, idx, ctx):
+    """In situ: what the plotting entry points hand to the colour conversion must be the requested normalisation of the data."""
+    from matplotlib.figure import Figure
+
+    viz = _viz_setup(ctx)
     cap = ctx.state["viz_cap"]
     cap.clear()
     rng = ctx.rng(idx)
@@ -780,5 +815,9 @@ def run_case(spec, idx, ctx):
             _run_big(spec, idx, ctx)
         elif spec["kind"] == "pedestal":
             _run_pedestal(spec, idx, ctx)
+        elif spec["kind"] == "lifetime":
+            from vf.props import c20_lifetime
+
+            c20_lifetime.run(spec, idx, ctx, sys.modules[__name__])
         else:
             _run_combined(spec, idx, ctx)
